@@ -978,7 +978,173 @@ func TestVerifC02(t *testing.T) {
 		}
 	}
 	c02Budget(e)
+	c02Fixed(e)
+	c02Diamond(e)
 	c02Empty(e)
+}
+
+// c02Diamond: several submitted certificates are candidate parents of the same child and share a parent
+// themselves, so the per-candidate cache of buildChains is hit (it then returns the chains found under the
+// first prefix).  Submitted in several orders, through ValidateChain and through Verify.
+func c02Diamond(e *c02Env) {
+	keys := vKeys()
+	r := e.r
+	neutral := c02Opts{now: time.Date(2030, 1, 1, 0, 0, 0, 0, time.UTC)}
+	for round := 0; round < verifkit.N(6, 60); round++ {
+		root := vIssue(vSpec{cn: fmt.Sprintf("diamond root %d", round), key: keys[2+r.Intn(10)], isCA: true, keyUsage: vCAUsage})
+		x := vIssue(vSpec{cn: fmt.Sprintf("diamond top %d", round), key: keys[2+r.Intn(10)], issuer: root, isCA: true, keyUsage: vCAUsage})
+		var x2 *vCert
+		if r.Bool() { // a second top with the same name and key
+			x2 = vIssue(vSpec{rawSubj: x.c.RawSubject, cn: "x", key: x.key, issuer: root, isCA: true, keyUsage: vCAUsage, ski: x.c.SubjectKeyId,
+				notAfter: time.Date(2041, 1, 1, 0, 0, 0, 0, time.UTC)})
+			x2.label = x.label + " bis"
+		}
+		tk := keys[2+r.Intn(10)]
+		nt := 2 + r.Intn(3)
+		var ts []*vCert
+		for i := 0; i < nt; i++ {
+			sp := vSpec{cn: fmt.Sprintf("diamond mid %d", round), key: tk, issuer: x, isCA: true, keyUsage: vCAUsage,
+				notAfter: time.Date(2040, 1, 1, 0, 0, i, 0, time.UTC)}
+			if i > 0 {
+				sp.rawSubj = ts[0].c.RawSubject
+				sp.ski = ts[0].c.SubjectKeyId
+			}
+			if x2 != nil && r.Bool() {
+				sp.issuer = x2
+			}
+			t := vIssue(sp)
+			t.label = fmt.Sprintf("diamond mid %d.%d", round, i)
+			ts = append(ts, t)
+		}
+		leaf := vIssue(vSpec{cn: fmt.Sprintf("diamond leaf %d", round), key: keys[2+r.Intn(10)], issuer: ts[r.Intn(nt)], keyUsage: stdx509.KeyUsageDigitalSignature})
+		all := append([]*vCert{}, ts...)
+		all = append(all, x)
+		if x2 != nil {
+			all = append(all, x2)
+		}
+		for v := 0; v < 4; v++ {
+			// a random arrangement of a random non-empty subset, optionally with the root at the end
+			perm := append([]*vCert{}, all...)
+			for i := len(perm) - 1; i > 0; i-- {
+				j := r.Intn(i + 1)
+				perm[i], perm[j] = perm[j], perm[i]
+			}
+			if v == 0 {
+				perm = append([]*vCert{}, all...) // mids then tops: the natural order
+			}
+			perm = perm[:1+r.Intn(len(perm))]
+			chain := append([]*vCert{leaf}, perm...)
+			if r.Intn(3) == 0 {
+				chain = append(chain, root)
+			}
+			pool := []*vCert{root}
+			if r.Intn(4) == 0 {
+				pool = nil
+				pool = append(pool, vIssue(vSpec{cn: "diamond other root", key: keys[2], isCA: true, keyUsage: vCAUsage}))
+			}
+			var ders [][]byte
+			var labels []string
+			for _, c := range chain {
+				ders = append(ders, c.der)
+				labels = append(labels, c.label)
+			}
+			k := c02NewCase(pool, ders)
+			e.eval(k, labels, neutral, 1)
+			e.evalVerify(k, labels)
+			e.out.Count("mode:diamond")
+		}
+	}
+}
+
+// c02V1 turns a certificate into an X.509 v1 certificate with the same names and key (no version field, no
+// extensions); its own signature no longer verifies, which is irrelevant for a trust anchor.
+func c02V1(c *vCert) *vCert {
+	outer, _, ok := c01Read(c.der)
+	if !ok {
+		panic("c02V1")
+	}
+	parts, ok := c01Children(outer.val)
+	if !ok || len(parts) != 3 {
+		panic("c02V1 parts")
+	}
+	fields, ok := c01Children(parts[0].val)
+	if !ok {
+		panic("c02V1 fields")
+	}
+	var tbs []byte
+	for _, f := range fields {
+		if f.tag == 0xa0 || f.tag == 0xa3 {
+			continue
+		}
+		tbs = append(tbs, f.full...)
+	}
+	der := c01Wrap(0x30, append(append(c01Wrap(0x30, tbs), parts[1].full...), parts[2].full...))
+	pc, err := x509.ParseCertificate(der)
+	if x509.IsFatal(err) {
+		panic("c02V1: " + err.Error())
+	}
+	return &vCert{der: der, c: pc, key: c.key, label: c.label + " as v1"}
+}
+
+// c02Fixed: one case per signing condition of CheckSignatureFrom / isValid, for intermediates and for trust anchors.
+func c02Fixed(e *c02Env) {
+	keys := vKeys()
+	neutral := c02Opts{now: time.Date(2030, 1, 1, 0, 0, 0, 0, time.UTC)}
+	root := vIssue(vSpec{cn: "fixed root", key: keys[3], isCA: true, keyUsage: vCAUsage})
+	type kind struct {
+		name string
+		mut  func(*vSpec)
+		ok   bool
+	}
+	kinds := []kind{
+		{"good", func(*vSpec) {}, true},
+		{"no-key-usage", func(s *vSpec) { s.keyUsage = 0 }, true},
+		{"key-usage-without-certsign", func(s *vSpec) { s.keyUsage = stdx509.KeyUsageDigitalSignature | stdx509.KeyUsageCRLSign }, false},
+		{"v3-without-basic-constraints", func(s *vSpec) { s.noBC = true }, false},
+		{"basic-constraints-not-ca", func(s *vSpec) { s.isCA = false }, false},
+	}
+	for i, k := range kinds {
+		// as an intermediate
+		sp := vSpec{cn: "fixed inter " + k.name, key: keys[4+i], issuer: root, isCA: true, keyUsage: vCAUsage}
+		k.mut(&sp)
+		inter := vIssue(sp)
+		leaf := vIssue(vSpec{cn: "fixed leaf under " + k.name, key: keys[10], issuer: inter, keyUsage: stdx509.KeyUsageDigitalSignature})
+		for _, withRoot := range []bool{false, true} {
+			chain := []*vCert{leaf, inter}
+			if withRoot {
+				chain = append(chain, root)
+			}
+			var ders [][]byte
+			for _, c := range chain {
+				ders = append(ders, c.der)
+			}
+			kc := c02NewCase([]*vCert{root}, ders)
+			got := e.eval(kc, []string{"leaf", "intermediate:" + k.name, fmt.Sprint("root:", withRoot)}, neutral, 1)
+			e.evalVerify(kc, []string{"leaf", "intermediate:" + k.name})
+			if got != k.ok {
+				e.out.Fail("fixed: intermediate "+k.name, fmt.Sprintf("admitted=%v, want %v", got, k.ok))
+			}
+		}
+		// as the trust anchor itself
+		sp = vSpec{cn: "fixed anchor " + k.name, key: keys[4+i], isCA: true, keyUsage: vCAUsage}
+		k.mut(&sp)
+		anchor := vIssue(sp)
+		leaf2 := vIssue(vSpec{cn: "fixed leaf under anchor " + k.name, key: keys[10], issuer: anchor, keyUsage: stdx509.KeyUsageDigitalSignature})
+		kc := c02NewCase([]*vCert{anchor}, [][]byte{leaf2.der})
+		got := e.eval(kc, []string{"leaf", "anchor:" + k.name}, neutral, 1)
+		if got != k.ok {
+			e.out.Fail("fixed: trust anchor "+k.name, fmt.Sprintf("admitted=%v, want %v", got, k.ok))
+		}
+		if i == 0 {
+			// the same anchor as an X.509 v1 certificate (no basic constraints possible): may sign
+			v1 := c02V1(anchor)
+			kc := c02NewCase([]*vCert{v1}, [][]byte{leaf2.der})
+			if got := e.eval(kc, []string{"leaf", "anchor:v1"}, neutral, 1); !got {
+				e.out.Fail("fixed: trust anchor v1", "a leaf signed by a version-1 trust anchor was rejected")
+			}
+			e.out.Count("class:v1-anchor")
+		}
+	}
 }
 
 // c02Empty: an empty chain never reaches ValidateChain (it would index chain[0]); the handler answers 400.
